@@ -19,11 +19,12 @@ class AnalysisError(Exception):
 # --------------------------------------------------------------------------- model
 
 class FuncInfo:
-    __slots__ = ('module', 'qual', 'node', 'cls', 'parent', 'nested')
+    __slots__ = ('module', 'qual', 'node', 'cls', 'parent', 'nested', 'forced')
 
     def __init__(self, module, qual, node, cls=None, parent=None):
         self.module, self.qual, self.node, self.cls, self.parent = module, qual, node, cls, parent
         self.nested = {}
+        self.forced = None       # 'staticmethod' / 'classmethod' for `name = staticmethod(function)` written in a class body
 
     @property
     def name(self):
@@ -52,10 +53,10 @@ class FuncInfo:
         return out
 
     def is_static(self):
-        return 'staticmethod' in self.decorator_names()
+        return self.forced == 'staticmethod' or 'staticmethod' in self.decorator_names()
 
     def is_classmethod(self):
-        return 'classmethod' in self.decorator_names()
+        return self.forced == 'classmethod' or 'classmethod' in self.decorator_names()
 
     def is_property(self):
         return any(d == 'property' or d.endswith('.setter') for d in self.decorator_names())
@@ -72,6 +73,7 @@ class ClassInfo:
     def __init__(self, module, name, node):
         self.module, self.name, self.node = module, name, node
         self.methods = {}
+        self.aliases = {}
         self.base_exprs = [dotted(b) or '?' for b in node.bases]
 
     @property
@@ -145,6 +147,19 @@ class ModuleInfo:
                         for a, b in zip(t.elts, st.value.elts):
                             if isinstance(a, ast.Name):
                                 self.assigns[a.id] = b
+        # methods bound by assignment in a class body:  setup_context = staticmethod(_shared_helper)
+        for ci in self.classes.values():
+            for name, (fname, kind) in getattr(ci, 'aliases', {}).items():
+                if name in ci.methods:
+                    continue
+                target = self.functions.get(fname)
+                if target is None or target.cls is not None:
+                    continue
+                fi = FuncInfo(self, ci.name + '.' + name, target.node, ci, None)
+                fi.forced = kind
+                fi.nested = target.nested
+                self.functions[fi.qual] = fi
+                ci.methods[name] = fi
         # function-level imports (e.g. "from .. import _require_backend_attr" inside a method)
 
     def _add_class(self, st, add_func, prefix=''):
@@ -162,6 +177,12 @@ class ModuleInfo:
                 ci.methods[key] = fi
             elif isinstance(sub, ast.ClassDef):
                 self._add_class(sub, add_func, ci.name + '.')
+            elif isinstance(sub, ast.Assign) and len(sub.targets) == 1 and isinstance(sub.targets[0], ast.Name):
+                v, kind = sub.value, None
+                if isinstance(v, ast.Call) and isinstance(v.func, ast.Name) and v.func.id in ('staticmethod', 'classmethod') and len(v.args) == 1:
+                    kind, v = v.func.id, v.args[0]
+                if isinstance(v, ast.Name):
+                    ci.aliases[sub.targets[0].id] = (v.id, kind)
 
 
 def iter_child_defs(fnode):
@@ -258,9 +279,10 @@ class Repo:
         for m in self.modules.values():
             seen = set()
             for q, f in m.functions.items():
-                if id(f.node) in seen:
+                k = (id(f.node), f.cls.name if f.cls is not None else None)     # one shared helper bound into several classes: one entry per class
+                if k in seen:
                     continue
-                seen.add(id(f.node))
+                seen.add(k)
                 yield f
 
     # ---- name resolution
